@@ -324,8 +324,8 @@ func runC04(w *W) {
 			stepsHere := append([]int{}, steps...)
 			for k, tj := range c04Targets {
 				// (a far step costs the library one loop iteration per month crossed: the quick tier takes one target per
-				// state, rotating with the day number; the thorough tier all of them)
-				if tj != j && (w.Thorough() || k == j%len(c04Targets)) {
+				// state, rotating with the day number; the thorough tier a second one)
+				if tj != j && (k == j%len(c04Targets) || (w.Thorough() && k == (j/8+3)%len(c04Targets))) {
 					stepsHere = append(stepsHere, tj-j)
 				}
 			}
